@@ -127,7 +127,8 @@ def run(chk):
                 "result is not the trivial one (valid parse / non-zero compare / found hash / printed notice)")
     chk.assumptions = ["the network fetch result and the wall clock are inputs of the model; sub-second truncation of cache "
                        "timestamps is outside the model", "the download/extract/install path after the decision gate is not modelled"]
-    chk.prove()
+    import translate_tables
+    chk.prove(generated=[translate_tables.update_constants])
     rng = chk.rng
     vs = version_strings(rng, 1500 if chk.thorough else 60)
     lines, meta = [], []
